@@ -30,6 +30,15 @@ CLAIMS["C16"] = ("7.16", "proof: for all valid intervals of every shape (finite,
 CLAIMS["C19"] = ("7.19", "For the QPLIB reader model: the objective is 1/2 x'Q0x + b0'x + q0 from the listed lower-triangle entries (diagonal halved), with default and non-default b0 and the sense; exactly one <=0 constraint per finite side, g - c_u with id i and -g + c_l with id m+i; the infinity threshold, the variable-type rules, the error line-number discipline and the head-line error classes are proved for all inputs (11 theorems). Two-phase correspondence: Coq renders the text from an abstract model with an independent writer, the SDK loads it, Coq judges the instance against meaning(M) and against the model reader, on all 120 type codes and one fault per error class (incl. negative counts).",
          "Not proved: load.render = meaning (Tier B; checked per case); error class at deep positions. Exact-decimal literals (no f64 rounding on the cases run); single separators in entry lines. Observations outside the letter of the property (index 0 / out-of-range index / short entry lines panic, repeated separators rejected, 4-letter type code accepted) are probed with VERIF_C19_PROBE=1 and recorded in DESIGN.md, not asserted.")
 
+CLAIMS["C09"] = ("7.9", "Theorems on the model of penalty_method / uniform_penalty_method (for every dropping test that drops only exact zeros): no active constraint remains; every constraint of the input, already removed ones included, is kept in order with its record; one parameter per constraint with ids next_id.. (pairwise distinct, above every decision-variable id), tagged with the constraint id; variables, sense, dependencies, hints carried over; objective = f + sum_c p_c*g_c^2 (uniform: f + p*sum g_c^2) for every valuation of variables and weights. Correspondence: the SDK's parametric instance is checked structurally and its objective compared as a formal polynomial in x and the weights with the expected one recomputed for the SDK's own (checked-fresh) parameter ids.",
+         "Hypothesis iwf: quadratic messages without duplicated (row,col) positions. The 'fix:' commit d4411b9 made the SDK keep previously removed constraints.")
+CLAIMS["C10"] = ("7.10", "Theorems on the model of with_parameters / From<Instance>: objective and every active constraint of the result denote the parametric function at (x,p) with ids, equalities, metadata unchanged; variables, sense, removed constraints, hints, dependencies unchanged; supplied values recorded; a missing declared parameter is an error, and with all parameters present the only failure is a malformed quadratic message; Instance -> ParametricInstance -> Instance with no parameters is the same problem. Correspondence: complete / extra / missing-each assignments and round trips, whole instances compared.",
+         "")
+CLAIMS["C11"] = ("7.11", "Theorems on the model of as_pubo_format / as_qubo_format, for ANY number of variables and all 2^n assignments at once: for every binary valuation sum_S c_S prod x_i = objective (QUBO: + offset); keys are distinct strictly increasing sets / pairs i<=j; no stored coefficient is zero; refusal iff active constraints remain, maximisation, a used non-binary variable, or (QUBO) an entering term with > 2 distinct variables. Stated for every pair of enter/leave tests that only discard exact zeros; the SDK's |c|>eps / |v|<eps tests are run in the correspondence (near-epsilon stream), which also sweeps the SDK's dictionary over all 2^n assignments (n<=10).",
+         "")
+CLAIMS["C12"] = ("7.12", "Theorems: for EVERY K>=1 (no width bound) the bit patterns of length log2_up(K+1) weighted by 1,2,..,2^(n-2),K-2^(n-1)+1 reach exactly 0..K; the model of log_encode returns, for an integer variable with finite bound, n fresh binaries (ids next_id.., kind binary, bound [0,1]) and a linear expression whose values over all bit assignments are exactly the integers ceil(l)..floor(u); a single-integer range gives a constant and no variables; success iff known id, integer kind, finite bound containing an integer. Correspondence: every width 1..64 (thorough 1..4096), random and fractional bounds, widths to 2^40, every error condition under a watchdog (instance unchanged on error).",
+         "float log2/ceil of the SDK is modelled by N.log2_up (validated by the correspondence on all sampled widths). The 'fix:' commit 91d0376 made infinite bounds an error instead of a hang.")
+
 PENDING = {
 }
 
